@@ -48,13 +48,24 @@ def gen_target(rng):
     return {"kind": k, "s": fb(rng.choice([1.0, 50.0, 1000.0]))}, rng.randint(1, 3)
 
 
+def nan_target(rng):
+    """targets whose log-density is NaN / -inf outside their support (a leapfrog step can reach such points)"""
+    k = rng.choice(["logdomain", "ball", "halfline"])
+    return {"kind": k}, rng.choice([1, 2])
+
+
 def generate(rng, tier):
     n_cases = 90 if tier == "quick" else 1200
     cases = []
+    # deep trees: a very wide 1-D Gaussian with step size 1 needs more than ten doublings before it U-turns
+    for _ in range(2 if tier == "quick" else 8):
+        cases.append({"op": "transitions", "f": "f64", "target": {"kind": "gaussprec", "d": 1, "prec": [fb(2.0 ** -20)]},
+                      "init": [fb(0.0)], "accept": 0.8, "seed": str(rng.getrandbits(64)), "runs": [[2, 0]], "force_eps": fb(1.0)})
     while len(cases) < n_cases:
         f = rng.choice(["f32", "f32", "f64"])
-        tg, dim = gen_target(rng)
-        c = {"op": "transitions", "f": f, "target": tg, "init": [fb(round(rng.uniform(-1.5, 1.5), 2)) for _ in range(dim)],
+        tg, dim = gen_target(rng) if rng.random() < 0.85 else nan_target(rng)
+        start = [fb(0.5)] + [fb(0.1)] * (dim - 1) if tg["kind"] in ("logdomain", "ball", "halfline") else [fb(round(rng.uniform(-1.5, 1.5), 2)) for _ in range(dim)]
+        c = {"op": "transitions", "f": f, "target": tg, "init": start,
              "accept": rng.choice([0.6, 0.8, 0.95]), "seed": str(rng.getrandbits(64)),
              "runs": [[rng.randint(2, 5), rng.randint(0, 4)]]}
         r = rng.random()
@@ -65,8 +76,13 @@ def generate(rng, tier):
     return cases
 
 
+def run_impl(cases):
+    # NUTS has no depth cap: every case runs in its own process under a watchdog and a memory limit
+    return C.run_isolated("C03", cases, watchdog_s=90, mem_gb=6)
+
+
 def transitions(case, out):
-    if "panic" in out:
+    if "panic" in out or "timeout" in out or "crash" in out:
         return []
     trs = []
     for run in out["runs"]:
@@ -79,6 +95,8 @@ def usable(tr):
 
 
 def coq_term(case, out):
+    if "timeout" in out or "crash" in out:
+        return None
     trs = [t for t in transitions(case, out) if usable(t) and not N.ambiguous(t, case["f"])]
     if not trs:
         return None
@@ -98,6 +116,8 @@ def split_model(model):
 
 
 def compare(case, out, model):
+    if "timeout" in out or "crash" in out:
+        return None
     if "panic" in out:
         return "implementation panicked: " + out["panic"]
     if model is None:
@@ -152,6 +172,11 @@ def leaf_dynamics(case, tr):
 
 
 def oracle(case, out):
+    if "timeout" in out or "crash" in out:
+        return ("%s (start %s, eps %s): the transition did not finish within the watchdog (%s) — the trajectory kept doubling "
+                "although it must stop at a U-turn or at a divergence / non-finite leaf" % (
+                    case["target"]["kind"], [N.bf(b) for b in case["init"]],
+                    N.bf(case["force_eps"]) if "force_eps" in case else "adapted", out))
     if "panic" in out:
         return "NUTS panicked: " + out["panic"]
     for t in transitions(case, out):
